@@ -51,4 +51,68 @@ def run(ctx, rep):
             if any(E.mentions_field(a, f) for f in hit):
                 rep.add("R35b", b.sname, "new identity derives from the entity counter", True, "", b.loc(t.line))
     rep.floor("R35a", n, 6, "entity counter increments")
+    # R35c: all creators that share a counter use it the same way round: the identity is built from the value *before* the
+    # increment (post-increment). A creator that increments first would hand out the value the next post-incrementing creator uses.
+    # R35d: an identity derived from a 16-bit counter uses both of its bytes (byte 0 and byte 1), each once
+    order = {}
+    nid = 0
+    for b in fx.bodies.values():
+        if not b.is_fn_like():
+            continue
+        hit = sorted({f for a, f in b.sum_writes if f in COUNTERS})
+        if not hit:
+            continue
+        fc = FnCtx(b)
+        m = fc.mir
+        for f in hit:
+            wblocks = [bb for bb, i, s in fc.field_writes(None, f)]
+            # blocks that read the counter's bytes for an identity
+            idx = []
+            rblocks = []
+            for bb, t in m.calls():
+                if not t.callee.indirect and t.callee.method() in ("to_le_bytes", "to_ne_bytes", "to_be_bytes") and t.args and E.mentions_field(fc.arg(t, 0), f):
+                    rblocks.append(bb)
+            for bb, i, s in m.stmts():
+                if s.kind == "assign" and s.rv is not None and s.rv.kind == "use" and s.rv.ops and s.rv.ops[0].place is not None:
+                    pl = s.rv.ops[0].place
+                    for pr in pl.proj:
+                        if pr[0] in ("cindex", "index"):
+                            src = fc.eb.place(type(pl)([pl.local, []])) if False else None
+            # constant indices applied to the byte arrays: read them from the expressions of the identity constructors
+            for bb, t in fc.calls("InstanceHandle::new", "EntityId::new"):
+                e = fc.eb.call(t, bb, 0)
+                if not E.mentions_field(e, f):
+                    continue
+                nid += 1
+                # byte indices applied to the counter's byte array inside this function
+                ks = []
+                byte_locals = {t2.dest.local for b2, t2 in m.calls() if not t2.callee.indirect and t2.callee.method() in ("to_le_bytes", "to_ne_bytes", "to_be_bytes")
+                               and t2.args and E.mentions_field(fc.arg(t2, 0), f) and t2.dest is not None}
+                for b2, i2, s2 in m.stmts():
+                    if s2.kind == "assign" and s2.rv is not None and s2.rv.kind == "use" and s2.rv.ops and s2.rv.ops[0].place is not None and s2.rv.ops[0].place.local in byte_locals:
+                        for pr in s2.rv.ops[0].place.proj:
+                            if pr[0] == "cindex":
+                                ks.append(pr[1])
+                            elif pr[0] == "index":
+                                for d in m.whole_defs(pr[1]):
+                                    if d[0] == "s" and d[3].rv is not None and d[3].rv.kind == "use" and d[3].rv.ops and d[3].rv.ops[0].const is not None:
+                                        ks.append(d[3].rv.ops[0].const.get("v"))
+                width = 1 if f in ("publisher_counter", "subscriber_counter") else 2
+                nids = len([1 for b3, t3 in fc.calls("InstanceHandle::new", "EntityId::new") if E.mentions_field(fc.eb.call(t3, b3, 0), f)])
+                if ks and nids:
+                    want = sorted(list(range(width)) * 1)
+                    per = sorted(ks)
+                    # several identities in one function (handle and entity id) each use every byte once
+                    ok = len(per) % width == 0 and all(per.count(i) == len(per) // width for i in range(width)) and set(per) == set(range(width))
+                    rep.add("R35d", b.sname, "identity uses every byte of %s" % f, ok,
+                            "byte indices used: %s (counter has %d bytes): identities repeat after 256 creations although the counter has not wrapped" % (per, width), b.loc(t.line))
+                # order relative to the increment
+                before = all(w in m.reachable(bb) and bb not in m.reachable(w) for w in wblocks) if wblocks else None
+                order.setdefault(f, []).append((b, before, t.line))
+    for f, lst in sorted(order.items()):
+        kinds = {bf for _, bf, _ in lst}
+        for b, bf, line in lst:
+            rep.add("R35c", b.sname, "identity is built from %s before it is incremented (all creators agree)" % f, bf is True,
+                    "this creator %s while the others build the identity first: two creators sharing the counter hand out the same identity" % ("increments first" if bf is False else "has no ordered increment"), b.loc(line))
+    rep.floor("R35c", nid, 6, "identity constructions from an entity counter")
     rep.note("creators: %s" % sorted(creators))
